@@ -14,6 +14,8 @@
 
 #ifdef C01_USTR
 # define CN "ustr"
+# define CASE_STREAM "C01u"
+# define CLASS_ID 2
 # define F(n) spif_ustr_##n
 typedef spif_ustr_t obj_t;
 # define STRCLS SPIF_STRCLASS_VAR(ustr)
@@ -22,6 +24,8 @@ typedef spif_ustr_t obj_t;
 # define IS_MY_CLASS(o) SPIF_OBJ_IS_USTR(o)
 #else
 # define CN "str"
+# define CASE_STREAM "C01"
+# define CLASS_ID 1
 # define F(n) spif_str_##n
 typedef spif_str_t obj_t;
 # define STRCLS SPIF_STRCLASS_VAR(str)
@@ -30,6 +34,7 @@ typedef spif_str_t obj_t;
 # define IS_MY_CLASS(o) SPIF_OBJ_IS_STR(o)
 #endif
 typedef spif_int64_t idx_t;
+#define COV(h) vh_cov(vh_mix((h), CLASS_ID))
 
 #include "c01_ops.h"
 #include "c01_model.h"
